@@ -6,7 +6,6 @@ import (
 	"sort"
 	"strconv"
 	"strings"
-	"unicode"
 
 	"github.com/inspirer/textmapper/grammar"
 	"github.com/inspirer/textmapper/lex"
@@ -281,10 +280,8 @@ func (c *lexerCompiler) traverseLexer(parts []ast.LexerPart, defaultSCs []int, p
 			name := p.Name().Text()
 			var id string
 			if lid, ok := p.LexemeId(); ok {
-				id = lid.Identifier().Text()
-				if strings.ContainsFunc(id, unicode.IsLower) {
-					id = ident.Produce(id, ident.UpperCase)
-				}
+				// Note: Produce leaves well-formed upper-case identifiers as is.
+				id = ident.Produce(lid.Identifier().Text(), ident.UpperCase)
 			}
 			tok := c.resolver.addToken(name, id, rawType, space, p.Name())
 
@@ -525,10 +522,8 @@ func (c *lexerCompiler) parseFlexDeclarations(lexer ast.LexerSection) {
 			}
 			var id string
 			if lid, ok := p.LexemeId(); ok {
-				id = lid.Identifier().Text()
-				if strings.ContainsFunc(id, unicode.IsLower) {
-					id = ident.Produce(id, ident.UpperCase)
-				}
+				// Note: Produce leaves well-formed upper-case identifiers as is.
+				id = ident.Produce(lid.Identifier().Text(), ident.UpperCase)
 			}
 			tok := c.resolver.addToken(name, id, rawType, space, p.Name())
 
